@@ -54,7 +54,8 @@ class C15(Machine):
                    "walk_restart", "identical_gaussians_or_sticky",
                    "odd_length", "even_length", "rp_twin_surrogates_ok",
                    "float32_input", "failed_call_in_between",
-                   "rp_criterion_changed", "recurrence_network_object")
+                   "rp_criterion_changed", "recurrence_network_object",
+                   "integer_input")
     real_vs_stub = {"real": ["Surrogates (all generators, twins, "
                              "normalisation, embedding), RecurrencePlot."
                              "twins / twin_surrogates, the compiled twin and "
@@ -84,7 +85,8 @@ class C15(Machine):
         d = {"N": a.choice((1, 1, 2, 3, 4)), "T": a.randrange(8, 41),
              "kind": a.choice(("ar", "periodic", "periodic")),
              "s": a.randrange(10 ** 9),
-             "dtype": a.choice(("float64", "float64", "float64", "float32"))}
+             "dtype": a.choice(("float64", "float64", "float64", "float32",
+                                "float32", "int64"))}
         cfg = {"lru": lru, "personality": a.choice(PERSONALITIES),
                "rp": {"dim": a.choice((1, 2, 3)), "tau": a.choice((1, 1, 2)),
                       "thr": a.choice((0.05, 0.3, 1.0)),
@@ -138,6 +140,11 @@ class C15(Machine):
             # same values
             X = X.astype(np.float32).astype(np.float64)
             R.probe("float32_input")
+        if d.get("dtype") == "int64":
+            # count data: integers, still pairwise distinct within a series
+            X = (np.round(X * 1e4) * 100 + np.arange(X.shape[1])[None, :]
+                 ).astype(np.int64).astype(np.float64)
+            R.probe("integer_input")
         N, T = X.shape
         R.probe("odd_length" if T % 2 else "even_length")
         if cfg["personality"] in ("sticky", "low_entropy"):
@@ -183,6 +190,8 @@ class C15(Machine):
                 self._tag = (k, rep)
                 try:
                     if k == "normalize":
+                        if d.get("dtype") == "int64":
+                            continue      # refused for integer arrays
                         sur.normalize_original_data()
                         # zero mean, unit variance per series, evaluated in
                         # the precision of the caller's array
